@@ -86,8 +86,15 @@ func ComposeDot(w io.Writer, g *Graph, a *DotAttributes, c *DotConfig) {
 		builder.addNode(n, nodeIDMap[n], maxFlat)
 		hasNodelets[n] = builder.addNodelets(n, nodeIDMap[n])
 
-		// Collect all edges in node order.
-		edges = append(edges, n.Out.Sort()...)
+		// Collect all edges in node order. The edges of a node are ordered by
+		// their destination's position: in a trimmed call tree siblings may
+		// have identical names, so names cannot order them.
+		out := make(edgeList, 0, len(n.Out))
+		for _, e := range n.Out {
+			out = append(out, e)
+		}
+		sort.Slice(out, func(i, j int) bool { return nodeIDMap[out[i].Dest] < nodeIDMap[out[j].Dest] })
+		edges = append(edges, out...)
 	}
 
 	// Add edges to DOT builder. Sort edges by frequency as a hint to the graph
